@@ -144,7 +144,10 @@ public:
         for (std::size_t i = 0; i != size; ++i)
         {
             RandomNumberEngine rne;
-            in >> rne;
+
+            // skip the newline written in front of each generator ourselves: the stream operators
+            // of the random number engines are not required to skip leading whitespace
+            in >> std::ws >> rne;
             generators_.push_back(rne);
         }
     }
